@@ -1,5 +1,5 @@
 From Coq Require Import ZArith List Bool.
-From PV Require Import Base.U64 C13.C13_Model C13.C13_Msg C13.C13_Proofs C13.C13_MsgProofs C13.C13_Statements C13.C13_ChunkSafe C13.C13_ChunkDecode C13.C13_Roundtrip C13.C13_ChunkTotal C13.C13_ParseSafe.
+From PV Require Import Base.U64 C13.C13_Model C13.C13_Msg C13.C13_Proofs C13.C13_MsgProofs C13.C13_Statements C13.C13_ChunkSafe C13.C13_ChunkDecode C13.C13_Roundtrip C13.C13_ChunkTotal C13.C13_ParseSafe C13.C13_ParseIndep C13.C13_ParseTail.
 Import ListNotations.
 Local Open Scope Z_scope.
 
@@ -139,3 +139,26 @@ Theorem parse_malformed_safe :
     receive_header (rh_fuel ps) (msg_init is_req cap fill verb) ps err <> None.
 Proof. exact parse_malformed_safe_proof. Qed.
 Print Assumptions parse_malformed_safe.
+
+Theorem header_boundary_fragmentation_independent :
+  forall (is_req : bool) (cap fill verb : Z) (bytes : bytes) (ps1 ps2 : pieces) (err1 err2 : bool) (k : Z),
+    concat ps1 = bytes -> concat ps2 = bytes -> find_term bytes = Some k ->
+    0 < cap < 65536 -> k + 3 + MAX_TRANSFER_BYTES + (MAX_TRANSFER_BYTES + RESERVED_INDEX_SIZE) < cap ->
+    exists r1 m1 q1 r2 m2 q2,
+      receive_header (rh_fuel ps1) (msg_init is_req cap fill verb) ps1 err1 = Some (r1, m1, q1) /\
+      receive_header (rh_fuel ps2) (msg_init is_req cap fill verb) ps2 err2 = Some (r2, m2, q2) /\
+      fst (m_body m1) = fst (m_body m2) /\ fst (m_body m1) = u16 (k + 4) /\ r1 <> 2 /\ r2 <> 2.
+Proof. exact header_boundary_two_fragmentations_proof. Qed.
+Print Assumptions header_boundary_fragmentation_independent.
+
+Theorem start_line_tail_independent : forall (m : msg) (a b : bytes),
+  start_ok (m_is_req m) a = true -> zlen a < 65536 ->
+  parse_start_line m (a ++ b) = parse_start_line m a.
+Proof. exact start_tail. Qed.
+Print Assumptions start_line_tail_independent.
+
+Theorem header_lines_tail_independent : forall fuel a b hcap ext ptr kvs,
+  loop_ok fuel a hcap ext ptr (zlen kvs) = true -> zlen b <= ext ->
+  parse_loop fuel (a ++ b) hcap ptr kvs = parse_loop fuel a hcap ptr kvs.
+Proof. exact loop_tail. Qed.
+Print Assumptions header_lines_tail_independent.
